@@ -234,9 +234,10 @@ Definition truthy {A} (o : option (list A)) : bool :=
 Definition join_keys (self other : table) (cs co : option (list str)) : res (list str * list str) :=
   match cs, co with
   | None, None =>
-      (* natural join *)
-      Ok (filter (fun c => mem_str c (hdr other)) (hdr self),
-          filter (fun c => mem_str c (hdr self)) (hdr other))
+      (* natural join: the shared names in self's order; the same-named columns of other are
+         compared, whatever their order there (l.1007-1011) *)
+      let shared := filter (fun c => mem_str c (hdr other)) (hdr self) in
+      Ok (shared, shared)
   | Some a, None => if truthy cs then Ok (a, a) else Er E_Type
   | None, Some b => if truthy co then Ok (b, b) else Er E_Type
   | Some a, Some b =>
